@@ -8,7 +8,10 @@ RULE = ("M: group axioms of the affine law on toy curves y^2=x^3+7 of prime orde
         "CurveParams and TLC's complete tables are replayed: all pairs for Add (incl. P=Q, P=-Q, identity), all points for Double, all scalars "
         "0..2n+2 in 1..3 byte encodings plus empty for ScalarMult/ScalarBaseMult, all (x,y) in [0,p)^2 for IsOnCurve. T: real secp256k1: seeded and "
         "special operands; every result is verified by TLC through certificates (on-curve and chord/tangent congruences with logged quotients), "
-        "ScalarBaseMult checked as a homomorphism with [0]G=[n]G=identity, [1]G=G, leading zeros, scalars >= n, 2^256-1. Distinct by (copy,op,input).")
+        "ScalarBaseMult checked as a homomorphism with [0]G=[n]G=identity, [1]G=G, leading zeros, scalars >= n, 2^256-1, ladder-derived scalars; "
+        "crafted curve points with edge coordinates (tiny x / y, just below p, in [n,p)) for IsOnCurve and Add. Verdicts come from the real curve: a "
+        "toy-table deviation counts together with a real-size one, alone it triggers a larger real-size campaign and otherwise only skips the toy "
+        "leg (an implementation need not be generic in CurveParams). Distinct by (copy,op,input).")
 
 
 def run(ctx):
@@ -22,9 +25,7 @@ def run(ctx):
     work = []
     for label, binp in ec.btc_drivers(ctx).items():
         d = ctx.rundir("drv_" + label)
-        vlib.write_ndjson(d + "/in.ndjson", vec)
-        vlib.run_driver(ctx, binp, "replay", d + "/g.ndjson", infile=d + "/in.ndjson")
-        g = vlib.read_ndjson(d + "/g.ndjson")
+        g = ec.replay_toy(ctx, binp, vec, d)
         vlib.run_driver(ctx, binp, "record", d + "/t.ndjson", n=24 if q else 400)
         t = vlib.read_ndjson(d + "/t.ndjson")
         for k, e in enumerate(g):
@@ -36,7 +37,11 @@ def run(ctx):
     for _, _, ev in work[:1]:
         for e in ev[:2] + ev[-2:]:
             ctx.samples.append(ec.slim(e))
-    ec.judge(ctx, work, "koblitzCurve result is not the group law (wrong point, nil result or panic)")
+    def escalate(label, binp):
+        dd = ctx.rundir("escalate_" + label)
+        vlib.run_driver(ctx, binp, "record", dd + "/t.ndjson", n=400, extra_env={"VERIF_ESCALATE": "1"})
+        return vlib.read_ndjson(dd + "/t.ndjson")
+    ec.judge(ctx, work, "koblitzCurve result is not the group law (wrong point, nil result or panic)", escalate=escalate)
     return vlib.finish(ctx, LEVEL, RULE, ec.ASSUME, matchers=ec.MATCHERS,
                        technique="TLA+ spec ECGroup: TLC model of the group axioms on toy curves; complete toy tables replayed through the real generic code (both copies); real-size results verified by TLC via certificates")
 
